@@ -28,6 +28,20 @@ deepcopy, Binning.copy, ParallelJob args/kwargs, a real worker process: the work
 object sent back) and the binning that results report (tree cache, HistData, CorrFunc) are
 compared on (closed, edges) in Coq (c10_transport_case; C10_member_determines_binning: nothing
 less than equal closed side and edges keeps every redshift in its bin).
+
+Measurements over several LINKED patches ('linked' family): the samples of one measurement (data and
+randoms of autocorrelate; reference, unknown and their randoms of crosscorrelate) are separate
+catalogs over the same patch centres that populate DIFFERENT (bin, patch) cells: cells empty in one
+sample and populated in the partner, bins empty in every patch, patches populated in one bin only,
+objects on edges and outside the binning; per-sample weight column; patch centres close enough that
+patch pairs (i, j), i != j, are counted (complete, chain-like and absent linkage).  Every pair-count
+container of the result (dd, dr, rd, rr) is observed on both sides (sum_weights1, sum_weights2) and
+compared in Coq (c10_count_case) with the model of count_pairs (one write per patch pair result, in
+the order of the linkage's pair sequence, last write wins: count_pairs_sw) and with the spec: the
+closed-side rule applied to the objects of the column's patch alone (C10_count_pairs_member: for
+every pair sequence, whatever the partners hold); a sample without binning (unknown side of a
+cross-correlation) must report the patch total in every bin.  Serial, real worker processes and the
+pickling pool with permuted order of arrival.
 """
 import copy
 import itertools
@@ -56,12 +70,21 @@ ASSUMPTIONS = [
     "redshifts, edges and weights are dyadic rationals with few bits, so every float64 sum is exact and is compared with Qeq_bool",
     "objects handed to the model are the input rows grouped by their named patch (C02: the catalog stores exactly these)",
     "patch ids are 0..P-1 (PatchedSumWeights indexes columns by patch id)",
+    "linked family: every binned sample holds at least one object inside the binning in every patch (otherwise the pinned commit stops at "
+    "the known build_trees defect c10-empty-patch-unboundlocal, probed separately) and at least two objects per patch, two of equal weight "
+    "placed symmetrically about the patch centre and the others on it, so that the (weighted) patch centres of the samples coincide and the implementation's patch-consistency check accepts them; "
+    "a refusal (InconsistentPatchesError) is counted, not reported, and more than 20% refusals break an obligation",
+    "linked family: the pair sequence handed to the model is the one the implementation's PatchLinkage yields for the case "
+    "(C10_count_pairs_schedule_free: the verdict does not depend on it as long as every patch occurs, which flag 4 of c10_count_case checks)",
 ]
 RULE = ("cases = (closed side, weight column present, edges, per-patch lists of (redshift, weight), consumers observed, "
         "where the work is done: serial / real worker processes / pickling pool / transported binning); "
         "distinct by that tuple; non-trivial when at least one redshift lies exactly on a bin edge or outside the binning "
         "(the inputs on which the closed-side rule, the outer-edge mask and the index filter 0 < i <= nbins matter); "
-        "transport cases = (object type, transport, closed side, edges), all non-trivial")
+        "transport cases = (object type, transport, closed side, edges), all non-trivial; "
+        "linked cases = (closed side, edges, patch centre gaps, auto / cross, per sample: weight column, per-patch (redshift, weight) lists, "
+        "where the work is done), one evaluation per pair-count container; non-trivial when some counted patch pair joins, in some bin, "
+        "a populated tree with an empty one (the inputs on which a per-bin sum could depend on the partner patch)")
 
 HEADER = "From Verif Require Import Prelude Binning.\nOpen Scope Q_scope.\n"
 
@@ -588,6 +611,383 @@ def interpret(ctx, idx, spec, obs, info, c):
                  replay, case=idx)
 
 
+# ---------------------------------------------------------------- measurements over several linked patches
+PATCH_D = 0.03125                       # half extent of a patch in degrees (objects 0 / 1 sit at centre +- PATCH_D)
+GAPS = [0.03125, 0.0625, 0.0625, 0.0625, 0.125, 32.0]
+CELL_MODES = ["full", "onebin", "diag", "deadbin", "random", "random"]
+CONTAINERS = {
+    "auto": [("dd", "data", "data", True), ("dr", "data", "rand", False), ("rr", "rand", "rand", True)],
+    "cross": [("dd", "ref", "unk", False), ("dr", "ref", "unk_rand", False), ("rd", "ref_rand", "unk", False),
+              ("rr", "ref_rand", "unk_rand", False)],
+}
+
+
+def gen_cells(rng, mode, nb, P, base=None):
+    """which bins each patch populates (never none: see ASSUMPTIONS)"""
+    bins = list(range(nb))
+    if mode == "complement" and base is not None:
+        return [sorted(set(bins) - set(base[p])) or [rng.randrange(nb)] for p in range(P)]
+    if mode == "full":
+        return [list(bins) for _ in range(P)]
+    if mode == "onebin":
+        return [[rng.randrange(nb)] for _ in range(P)]
+    if mode == "diag":
+        k = rng.randrange(nb)
+        return [[(p + k) % nb] for p in range(P)]
+    if mode == "deadbin" and nb >= 2:
+        dead = set(rng.sample(bins, rng.randrange(1, nb)))
+        live = [b for b in bins if b not in dead]
+        return [sorted(rng.sample(live, rng.randrange(1, len(live) + 1))) for _ in range(P)]
+    out = []
+    for _ in range(P):
+        occ = [b for b in bins if rng.random() < 0.5]
+        out.append(occ or [rng.randrange(nb)])
+    return out
+
+
+def balanced(patches):
+    """objects 0 and 1 of a patch sit at centre +- PATCH_D, all others at the centre: with equal weights on these two the
+    (weighted) patch centre is the same point in every sample of a measurement"""
+    return [[objs[0], (objs[1][0], objs[0][1])] + list(objs[2:]) for objs in patches]
+
+
+def gen_sample(rng, closed, edges, cells, hasw, binned=True):
+    """per patch >= 2 objects; a binned sample puts at least one object into each populated cell (as far as the
+    number of objects allows), the others into populated cells or outside the binning; values: midpoints,
+    the closed edge of the bin, a generic inner value"""
+    outs = outside_values(closed, edges)
+    patches = []
+    for occ in cells:
+        n = rng.randrange(2, 7)
+        zs = []
+        order = list(occ)
+        rng.shuffle(order)
+        for j in range(n):
+            if not binned:
+                zs.append(0.0)
+                continue
+            if j < len(order):
+                b = order[j]
+            elif rng.random() < 0.3:
+                zs.append(rng.choice(outs))
+                continue
+            else:
+                b = rng.choice(occ)
+            lo, hi = edges[b], edges[b + 1]
+            zs.append(rng.choice([(lo + hi) / 2.0, (lo + hi) / 2.0, hi if closed == "right" else lo,
+                                  hi if closed == "right" else lo, lo + (hi - lo) * 0.75]))
+        rng.shuffle(zs)
+        patches.append([(z, rng.randrange(1, 41) / 8.0 if hasw else 1.0) for z in zs])
+    return dict(binned=binned, hasw=hasw, patches=balanced(patches))
+
+
+def random_linked_spec(rng):
+    edges = random_edges(rng)
+    nb = len(edges) - 1
+    closed = rng.choice(["left", "right"])
+    P = rng.choice([2, 2, 3, 3, 3, 4])
+    kind = rng.choice(["auto", "auto", "cross"])
+    gaps = [rng.choice(GAPS) for _ in range(P - 1)]
+    mode1 = rng.choice(CELL_MODES)
+    cells1 = gen_cells(rng, mode1, nb, P)
+    mode2 = rng.choice(["complement", "complement"] + CELL_MODES)
+    cells2 = gen_cells(rng, mode2, nb, P, base=cells1)
+    hw = lambda: rng.random() < 0.5  # noqa: E731
+    samples = {}
+    if kind == "auto":
+        samples["data"] = gen_sample(rng, closed, edges, cells1, hw())
+        samples["rand"] = gen_sample(rng, closed, edges, cells2, hw())
+    else:
+        samples["ref"] = gen_sample(rng, closed, edges, cells1, hw())
+        samples["unk"] = gen_sample(rng, closed, edges, [[0]] * P, hw(), binned=False)
+        which = rng.choice(["ref_rand", "unk_rand", "both", "both"])
+        if which in ("ref_rand", "both"):
+            samples["ref_rand"] = gen_sample(rng, closed, edges, cells2, hw())
+        if which in ("unk_rand", "both"):
+            samples["unk_rand"] = gen_sample(rng, closed, edges, [[0]] * P, hw(), binned=False)
+    return dict(tag="linked:%s:%s+%s" % (kind, mode1, mode2), family="linked", closed=closed, edges=edges, kind=kind,
+                gaps=gaps, samples=samples)
+
+
+def linked_probe_specs():
+    """deterministic: three patches 1/16 deg apart (all pairs counted), three bins; patch 0 of the data populates every bin
+    (with objects on every edge and outside), patch 1 only the first bin, patch 2 only the last bin; the randoms populate
+    the complementary cells; bin 1 is empty in every patch of the second probe; both closed sides, weighted and
+    unweighted, auto and cross"""
+    out = []
+    edges = [0.25, 0.5, 0.75, 1.0]
+    for closed in ("left", "right"):
+        c = (lambda b: edges[b + 1]) if closed == "right" else (lambda b: edges[b])      # the closed edge of bin b
+        for hasw in (False, True):
+            w = (lambda k: (2.0 ** k) / 8.0) if hasw else (lambda k: 1.0)
+            data = [[(0.125, w(0)), (0.25, w(1)), (0.375, w(2)), (0.5, w(3)), (0.625, w(4)), (0.75, w(5)), (1.0, w(6)), (1.25, w(7))],
+                    [(0.375, w(0)), (c(0), w(1))],
+                    [(c(2), w(0)), (0.875, w(1)), (2.0, w(2))]]
+            rand = [[(0.875, w(0)), (0.125, w(1))],
+                    [(0.625, w(0)), (c(1), w(1)), (0.875, w(2))],
+                    [(0.375, w(0)), (c(0), w(1)), (0.625, w(2))]]
+            dead = [[(0.375, w(0)), (0.875, w(1)), (c(0), w(2))],
+                    [(c(2), w(0)), (0.875, w(1))],
+                    [(0.375, w(0)), (0.375, w(1))]]
+            unk = [[(0.0, w(k)) for k in range(n)] for n in (3, 2, 4)]
+            sm = lambda patches, binned=True, hw=hasw: dict(binned=binned, hasw=hw, patches=balanced(patches))  # noqa: E731
+            base = dict(family="linked", closed=closed, edges=edges, gaps=[0.0625, 0.0625])
+            name = "%s:%s" % (closed, "w" if hasw else "u")
+            out.append(dict(base, tag="linked:probe:auto:complement:" + name, kind="auto",
+                            samples=dict(data=sm(data), rand=sm(rand, hw=not hasw))))
+            out.append(dict(base, tag="linked:probe:auto:deadbin:" + name, kind="auto",
+                            samples=dict(data=sm(dead), rand=sm(data))))
+            out.append(dict(base, tag="linked:probe:cross:complement:" + name, kind="cross",
+                            samples=dict(ref=sm(data), unk=sm(unk, binned=False), ref_rand=sm(rand), unk_rand=sm(unk[::-1], binned=False, hw=not hasw))))
+            out.append(dict(base, tag="linked:probe:cross:deadbin:" + name, kind="cross",
+                            samples=dict(ref=sm(dead), unk=sm(unk, binned=False), unk_rand=sm(unk, binned=False))))
+        # the smallest instance: two patches, two bins, one populated cell each, on the closed edge
+        e2 = [0.25, 0.5, 1.0]
+        z0, z1 = (0.5, 1.0) if closed == "right" else (0.25, 0.5)
+        two = [[(z0, 1.0), (z0, 1.0)], [(z1, 1.0), (z1, 1.0)]]
+        out.append(dict(tag="linked:probe:auto:two-patches:" + closed, family="linked", closed=closed, edges=e2, kind="auto",
+                        gaps=[0.03125], samples=dict(data=dict(binned=True, hasw=False, patches=two),
+                                                     rand=dict(binned=True, hasw=False, patches=two[::-1]))))
+    return out
+
+
+def linked_specs(ctx):
+    rng = ctx.rng
+    out = linked_probe_specs()
+    flavoured = []
+    for k, spec in enumerate(out):          # the probes once more with permuted arrival of the pair results
+        if k % 3 == 0:
+            flavoured.append(dict(spec, tag=spec["tag"] + ":pickling", pool="pickling", workers=3, order_seed=k))
+        elif k % 9 == 1:
+            flavoured.append(dict(spec, tag=spec["tag"] + ":real", pool="real", workers=2))
+    out += flavoured
+    for _ in range(ctx.n(90, 600)):
+        out.append(random_linked_spec(rng))
+    for _ in range(ctx.n(24, 150)):
+        spec = random_linked_spec(rng)
+        out.append(dict(spec, tag=spec["tag"] + ":pickling", pool="pickling", workers=rng.choice([2, 3, 5]),
+                        order_seed=rng.randrange(10 ** 6)))
+    for _ in range(ctx.n(8, 60)):
+        spec = random_linked_spec(rng)
+        out.append(dict(spec, tag=spec["tag"] + ":real", pool="real", workers=rng.choice([2, 3])))
+    return out
+
+
+def linked_frame(spec, sample):
+    ra, dec, z, w, pid = [], [], [], [], []
+    centre = 20.0
+    for p, objs in enumerate(sample["patches"]):
+        if p:
+            centre += spec["gaps"][p - 1]
+        for j, (zz, ww) in enumerate(objs):
+            ra.append(centre + (PATCH_D, -PATCH_D)[j] if j < 2 else centre)
+            dec.append(0.0)
+            z.append(zz)
+            w.append(ww)
+            pid.append(p)
+    cols = dict(ra=np.asarray(ra, dtype="f8"), dec=np.asarray(dec, dtype="f8"), pid=np.asarray(pid, dtype="i8"))
+    if sample["binned"]:
+        cols["z"] = np.asarray(z, dtype="f8")
+    if sample["hasw"]:
+        cols["w"] = np.asarray(w, dtype="f8")
+    return cols
+
+
+def observe_linked(ctx, spec, idx):
+    """returns dict(containers={name: dict(s1, s2, auto, pairs, sw1, sw2)}, errors={...}, refused=str or None)"""
+    import yaw
+    from yaw.catalog.catalog import InconsistentPatchesError
+
+    impl.set_threads(1)
+    edges, closed = spec["edges"], spec["closed"]
+    W = int(spec.get("workers") or 1)
+    dirs, cats = [], {}
+    errors, containers, refused = {}, {}, None
+    try:
+        for name, sample in sorted(spec["samples"].items()):
+            d = impl.fresh_dir(ctx, "lcat_%d_%s" % (idx, name))
+            dirs.append(d)
+            kw = dict(ra_name="ra", dec_name="dec", patch_name="pid", max_workers=1)
+            if sample["binned"]:
+                kw["redshift_name"] = "z"
+            if sample["hasw"]:
+                kw["weight_name"] = "w"
+            cats[name] = impl.Catalog.from_dataframe(d, impl.make_df(linked_frame(spec, sample)), **kw)
+            assert sorted(int(k) for k in cats[name].keys()) == list(range(len(sample["patches"]))), "patch ids"
+        conf = impl.Configuration.create(rmin=100.0, rmax=1000.0, edges=edges, closed=closed, max_workers=W)
+        old = np.seterr(invalid="ignore", divide="ignore")
+        try:
+            with pool_flavour(spec):
+                if spec["kind"] == "auto":
+                    cf = yaw.autocorrelate(conf, cats["data"], cats["rand"], count_rr=True, max_workers=W)[0]
+                else:
+                    cf = yaw.crosscorrelate(conf, cats["ref"], cats["unk"], ref_rand=cats.get("ref_rand"),
+                                            unk_rand=cats.get("unk_rand"), max_workers=W)[0]
+        except InconsistentPatchesError as e:
+            refused = "%s: %s" % (type(e).__name__, e)
+            return dict(containers={}, errors=errors, refused=refused)
+        except Exception as e:  # noqa: BLE001 - every sample is valid: zeros are required, not an error
+            errors["measurement"] = "%s: %s" % (type(e).__name__, e)
+            return dict(containers={}, errors=errors, refused=None)
+        finally:
+            np.seterr(**old)
+        # the pair sequences of the linkage the implementation uses for these catalogs (input of the model only)
+        seqs = {}
+        try:
+            from yaw.correlation.measurements import PatchLinkage
+            order = ["data", "rand"] if spec["kind"] == "auto" else ["ref", "unk", "ref_rand", "unk_rand"]
+            links = PatchLinkage.from_catalogs(conf, *[cats[n] for n in order if n in cats])
+            for auto in (True, False):
+                seqs[auto] = [(int(i), int(j)) for i, j in links.iter_patch_id_pairs(auto=auto)]
+        except Exception:  # noqa: BLE001 - not an observable of the property; the model then gets the complete sequence
+            P = len(next(iter(spec["samples"].values()))["patches"])
+            seqs = {True: [(i, j) for i in range(P) for j in range(i, P)], False: [(i, j) for i in range(P) for j in range(P)]}
+            ctx.bump("linked:pair-sequence-not-available")
+        for cname, s1, s2, auto in CONTAINERS[spec["kind"]]:
+            if s1 not in cats or s2 not in cats:
+                continue
+            cont = getattr(cf, cname, None)
+            if cont is None:
+                errors[cname] = "container missing from the result"
+                continue
+            sw = cont.sum_weights
+            containers[cname] = dict(
+                s1=s1, s2=s2, auto=auto, pairs=seqs[auto],
+                sw1=[[float(x) for x in row] for row in np.asarray(sw.sum_weights1)],
+                sw2=[[float(x) for x in row] for row in np.asarray(sw.sum_weights2)])
+        return dict(containers=containers, errors=errors, refused=None)
+    finally:
+        impl.set_threads(1)
+        for d in dirs:
+            shutil.rmtree(d, ignore_errors=True)
+
+
+def sample_term(sample):
+    return "%s %s %s" % (fq.b(sample["binned"]), fq.b(sample["hasw"]),
+                         fq.lst([fq.lst([fq.pair(fq.q(z), fq.q(w)) for z, w in objs]) for objs in sample["patches"]]))
+
+
+def linked_term(spec, cont):
+    return "c10_count_case %s %s %s %s %s %s %s" % (
+        fq.b(spec["closed"] == "right"), fq.qlist(spec["edges"]), sample_term(spec["samples"][cont["s1"]]),
+        sample_term(spec["samples"][cont["s2"]]), fq.lst([fq.pair(fq.nat(i), fq.nat(j)) for i, j in cont["pairs"]]),
+        fq.qmat(cont["sw1"]), fq.qmat(cont["sw2"]))
+
+
+def gen_cell_sums(spec, sample):
+    """(bins x patches) sums by the python-side rule: labels and the text of a report only, never a verdict"""
+    edges, closed = spec["edges"], spec["closed"]
+    nb = len(edges) - 1
+    if not sample["binned"]:
+        return [[sum(w if sample["hasw"] else 1.0 for _, w in objs) for objs in sample["patches"]] for _ in range(nb)]
+    return [[sum((w if sample["hasw"] else 1.0) for z, w in objs if gen_member(closed, edges, b, z)) for objs in sample["patches"]]
+            for b in range(nb)]
+
+
+def gen_cell_counts(spec, sample):
+    edges, closed = spec["edges"], spec["closed"]
+    nb = len(edges) - 1
+    if not sample["binned"]:
+        return [[len(objs) for objs in sample["patches"]] for _ in range(nb)]
+    return [[sum(1 for z, _ in objs if gen_member(closed, edges, b, z)) for objs in sample["patches"]] for b in range(nb)]
+
+
+def label_linked(ctx, spec, cname, cont):
+    edges, closed = spec["edges"], spec["closed"]
+    s1, s2 = spec["samples"][cont["s1"]], spec["samples"][cont["s2"]]
+    n1, n2 = gen_cell_counts(spec, s1), gen_cell_counts(spec, s2)
+    nb = len(edges) - 1
+    cross_pairs = [(i, j) for i, j in cont["pairs"] if not (cont["auto"] and i == j)]
+    partner_empty = any((n1[b][i] == 0) != (n2[b][j] == 0) for i, j in cross_pairs for b in range(nb))
+    other_patch = any(i != j for i, j in cont["pairs"])
+    zs = [z for s in (s1, s2) if s["binned"] for objs in s["patches"] for z, _ in objs]
+    on_edge = any(z in edges for z in zs)
+    outside = any(not gen_inside(closed, edges, z) for z in zs)
+    dead_bin = any(s["binned"] and any(all(v == 0 for v in row) for row in n) for s, n in ((s1, n1), (s2, n2)))
+    one_bin_patch = any(s["binned"] and nb >= 2 and any(sum(1 for b in range(nb) if n[b][p] > 0) == 1 for p in range(len(s["patches"])))
+                        for s, n in ((s1, n1), (s2, n2)))
+    for name, flag in (("partner_empty_cell", partner_empty), ("pairs_of_different_patches", other_patch), ("z_on_edge", on_edge),
+                       ("z_outside_binning", outside), ("bin_empty_in_every_patch", dead_bin), ("patch_populated_in_one_bin_only", one_bin_patch),
+                       ("unbinned_side", not (s1["binned"] and s2["binned"])), ("mixed_weight_columns", s1["hasw"] != s2["hasw"])):
+        if flag:
+            ctx.bump("linked:" + name)
+    how = flavour_of(spec)
+    key = ("linked", closed, tuple(edges), tuple(spec["gaps"]), spec["kind"], cname,
+           tuple((n, s["binned"], s["hasw"], tuple(tuple(tuple(o) for o in objs) for objs in s["patches"]))
+                 for n, s in ((cont["s1"], s1), (cont["s2"], s2))), how, spec.get("workers"))
+    ctx.count(key=key, nontrivial=partner_empty,
+              kind="linked/%s/%s/%s%s" % (spec["kind"], cname, closed, "/" + how if how else ""))
+    return dict(partner_empty=partner_empty, pairs_of_different_patches=other_patch, z_on_edge=on_edge, z_outside=outside,
+                bin_empty_in_every_patch=dead_bin, patch_populated_in_one_bin_only=one_bin_patch)
+
+
+def interpret_linked(ctx, idx, spec, cname, cont, info, c):
+    """bits (set = flag false): 1 / 2 model of count_pairs = sum_weights1 / sum_weights2, 4 / 8 sum_weights1 / sum_weights2 = spec,
+    16 hypotheses, 32 / 64 side 1: a populated cell reported as 0 / an empty cell reported non-zero, 128 / 256 the same for side 2"""
+    if c is None:
+        return
+    case = ("linked", idx)
+    if c & 16:
+        ctx.obligation("generator:linked case %d container %s satisfies the theorems' hypotheses" % (idx, cname), False, repr((spec, cont)))
+        return
+    if c & 3:
+        ctx.disagree("Linked_C10", case, dict(code=c, container=cname, spec=spec, observed=cont))
+    how = flavour_of(spec)
+    how = ":" + how if how else ""
+    for side, bit, zero_bit, nonzero_bit in ((1, 4, 32, 64), (2, 8, 128, 256)):
+        if not (c & bit):
+            continue
+        sname = cont["s%d" % side]
+        sample = spec["samples"][sname]
+        kind = "populated-cell-reported-zero" if c & zero_bit else "empty-cell-reported-nonzero" if c & nonzero_bit else "wrong-sum"
+        rule = ("the closed-%s rule applied to the objects of each patch" % spec["closed"]) if sample["binned"] else \
+            "the total weight of each patch in every bin (sample without binning: every object counts in every bin)"
+        ctx.fail("c10-measurement-sum-weights:linked-patches:%s-sample:%s%s" % ("binned" if sample["binned"] else "unbinned", kind, how),
+                 "%s over %d patches: %s.sum_weights.sum_weights%d (bins x patches, sample '%s') = %s, but %s gives %s; "
+                 "edges %s, objects per patch %s, patch pairs counted %s%s" % (
+                     "autocorrelate" if spec["kind"] == "auto" else "crosscorrelate", len(sample["patches"]), cname, side, sname,
+                     cont["sw%d" % side], rule, gen_cell_sums(spec, sample), spec["edges"], sample["patches"], cont["pairs"], where_text(spec)),
+                 dict(spec=spec, container=cname, side=side, observed=cont, labels=info, code=c), case=case)
+
+
+def run_linked(ctx, specs, name="Linked_C10"):
+    terms, kept = [], []
+    refused = 0
+    for idx, spec in enumerate(specs):
+        ctx.bump("measurement-linked:" + spec["kind"])
+        ctx.bump("linked:patches:%d" % len(next(iter(spec["samples"].values()))["patches"]))
+        try:
+            obs = observe_linked(ctx, spec, idx)
+        except Exception as e:  # creating a catalog from valid rows must not raise
+            ctx.fail("c10-harness-or-creation-raises:%s" % type(e).__name__,
+                     "creating / observing the catalogs of a measurement over linked patches raised %s: %s" % (type(e).__name__, e),
+                     dict(spec=spec, traceback=traceback.format_exc()[-1500:]), case=("linked", idx))
+            continue
+        if obs["refused"]:
+            refused += 1
+            ctx.bump("linked:refused:" + obs["refused"].split(":")[0])
+            continue
+        for where, err in sorted(obs["errors"].items()):
+            ctx.fail("c10-measurement-raises:linked-patches:%s%s" % (err.split(":")[0], (":" + flavour_of(spec)) if flavour_of(spec) else ""),
+                     "a measurement over several patches whose samples each hold objects inside the binning in every patch failed "
+                     "(%s) where zeros are required for bins / patches without objects: %s" % (where, err),
+                     dict(spec=spec, errors=obs["errors"]), case=("linked", idx))
+        ctx.sample(dict(spec=spec, observed=obs), limit=5)
+        for cname, cont in sorted(obs["containers"].items()):
+            info = label_linked(ctx, spec, cname, cont)
+            terms.append(linked_term(spec, cont))
+            kept.append((idx, spec, cname, cont, info))
+    ctx.obligation("generator:linked measurements accepted by the implementation (%d of %d refused)" % (refused, len(specs)),
+                   refused * 5 <= len(specs), "refused: %d" % refused)
+    ctx.log("%d pair-count containers of %d measurements over linked patches observed, evaluating in Coq" % (len(terms), len(specs)))
+    if not terms:
+        return []
+    codes = ctx.shards(name, HEADER, terms, shard=150)
+    for (idx, spec, cname, cont, info), c in zip(kept, codes):
+        interpret_linked(ctx, idx, spec, cname, cont, info, c)
+    return codes
+
+
 # ---------------------------------------------------------------- transports: what arrives is what was sent
 def make_obj(objtype, closed, edges):
     from yaw.binning import Binning
@@ -729,6 +1129,7 @@ def run(ctx):
     specs += boundary_specs(ctx)
     ctx.log("%d serial cases, %d cases across a process boundary" % (nserial, len(specs) - nserial))
     run_specs(ctx, specs)
+    run_linked(ctx, linked_specs(ctx))
     eval_transports(ctx, transport_records(ctx))
 
 
@@ -750,6 +1151,11 @@ def replay(ctx, body):
             eval_transports(ctx, [rec], name="ReplayTransport_C10")
             return
     spec = rp["spec"]
+    if spec.get("family") == "linked":
+        for sample in spec["samples"].values():
+            sample["patches"] = [[tuple(o) for o in objs] for objs in sample["patches"]]
+        run_linked(ctx, [spec], name="ReplayLinked_C10")
+        return
     spec["patches"] = [[tuple(o) for o in objs] for objs in spec["patches"]]
     if spec.get("prior"):
         spec["prior"] = [tuple(x) for x in spec["prior"]]
